@@ -88,6 +88,13 @@ func NewIPTransport(config Config, a *accessory.Accessory, as ...*accessory.Acce
 
 	cfg.load(storage)
 
+	// The id is stored before a key pair is created for it. A start which ends in between
+	// (an error below, a power loss) would otherwise choose a new id the next time and leave
+	// the entity of the previous one behind – the accessory would look paired forever.
+	if err := storage.Set("uuid", []byte(cfg.id)); err != nil {
+		return nil, err
+	}
+
 	device, err := hap.NewSecuredDevice(cfg.id, hap_pin, database)
 	if err != nil {
 		return nil, err
